@@ -67,4 +67,8 @@ CHECKS["C18"] = dict(
 CHECKS["C19"] = dict(
    text="Held on the sampled supersonic state pairs (flow angles 0, equal and different, unequal gammas): pointwise consistency of u,v,M,c,e; slip-line balance; oblique-shock density ratio, downstream Mach number, turning angle and shock position located on the returned fields; fan isentropy and total enthalpy. Sampling, not proof; the wrong Prandtl-Meyer function (fan turning, ray placement) is a listed known finding; two shock-placement defects for non-zero flow angles were repaired.",
    design_ref="5/C19", note=_T, technique="reference-relation monitor (oblique-shock / Prandtl-Meyer theory) over recorded public calls, wave positions located on the returned fields")
+CHECKS["C17"] = dict(
+   text="Held on every public call of the workload for the listed solvers (positivity contract as an icontract postcondition on ExactSolver.__call__) and on the sampled fine point sequences: compressive shocks, monotone fans (both Riemann solvers, Mader's Taylor wave incl. grids whose cell straddles its tail, EHEP region I, SDRZ), values bounded by the adjacent constant states (Mader transition cell, GenEOS smeared cells, points exactly on the piston's fronts), Su-Olson ordering and monotonicity. Sampling, not proof.",
+   design_ref="5/C17", note=_T + "; Su-Olson comparisons on energy densities with the solver's 5e-5 absolute accuracy",
+   technique="online contract (icontract postcondition) at the public call boundary + sequence monitors (monotonicity/bounds) on recorded calls")
 NOT_YET = {}
